@@ -470,6 +470,34 @@ def _edge_deleted_from_output_of(before, after, key):
     return None
 
 
+def _multi_consumer_optional(v):
+    """An attached OPTIONAL step has an output with two or more attached consumers of different need."""
+    for k, s in v.steps.items():
+        if s["detached"] or s["need"] != M.OPTIONAL:
+            continue
+        for d in v.out_edges.get(k, []):
+            needs = {v.steps[e["snk"]]["need"] for e in v.out_edges.get(d["snk"], [])
+                     if e["snk"] in v.steps and not v.steps[e["snk"]]["detached"]}
+            if len(needs) >= 2:
+                return True
+    return False
+
+
+def _edge_dropped_while_lower_consumer_stays(before, after):
+    vb, va = M.View(before), M.View(after)
+    gone = {(d["src"], d["snk"]) for d in before["deps"]} - {(d["src"], d["snk"]) for d in after["deps"]}
+    for src, snk in gone:
+        if src not in vb.files or snk not in vb.steps or vb.steps[snk]["detached"]:
+            continue
+        producers = [e["src"] for e in vb.in_edges.get(src, []) if e["src"] in vb.steps
+                     and vb.steps[e["src"]]["need"] == M.OPTIONAL and not vb.steps[e["src"]]["detached"]]
+        stay = [e["snk"] for e in va.out_edges.get(src, []) if e["snk"] in va.steps
+                and not va.steps[e["snk"]]["detached"] and va.steps[e["snk"]]["need"] < vb.steps[snk]["need"]]
+        if producers and stay:
+            return True
+    return False
+
+
 def _violations(v):
     return ({("_safe", k) for k in v.flaginv_safe_violations()}
             | {("_implied_need", k) for k in v.flaginv_need_violations()}
@@ -537,6 +565,8 @@ def oracle(ctx):
                 vb, vm = M.View(before), M.View(ev["after_meta"])
                 shapes.append(vm.shape())
                 ctx.case(("oracle-tick", repr(ev["after_meta"]), ev["choice"]), True)
+                if _multi_consumer_optional(vm):
+                    ctx.count("ticks_with_optional_output_shared_by_consumers_of_different_need")
                 sc = _side_conditions(before)
                 ctx.count("side_conditions_checked")
                 if sc is not None:
@@ -585,6 +615,8 @@ def oracle(ctx):
                 root = {x: (root.get(x) or sig_of.get(x) or f"flaginv:{x[0]}:tick") for x in _violations(va)}
                 continue
             va = M.View(after)
+            if before is not None and _edge_dropped_while_lower_consumer_stays(before, after):
+                ctx.count("events_dropping_an_edge_while_a_lower_need_consumer_stays")
             newv = _violations(va)
             nroot = {}
             for col, k in newv:
@@ -617,6 +649,10 @@ def oracle(ctx):
                              f"defer number {sb['defer_count'] + 1} with cap {before['defer_cap']} left state {sa['state']}",
                              {**where, "before_row": sb, "after_row": sa})
     ctx.stats["t_oracle_s"] = round(time.time() - t0, 1)
+    # targeted family: several consumers of different need on one optional output, the higher one drops
+    M.run_multi_consumer_family(M.MULTI_VARIANTS, fail,
+                                lambda v, obs: ctx.case(("multi-consumer", v[0]), True))
+    ctx.count("multi_consumer_cases", len(M.MULTI_VARIANTS))
     # deterministic replays of the Coq refutation witnesses (regressions for the fixed D18 and D8)
     r = run(M.replay_d11(), timeout=60)
     ctx.case(("replay", "d11"), True)
@@ -649,7 +685,20 @@ def oracle(ctx):
 
 
 def search(ctx):
-    """An obligation broke without a witness from the quick phases: more and longer histories."""
+    """An obligation broke without a witness from the quick phases: first the targeted family with
+    random members (a changed trigger body is most likely to show there), then more and longer
+    histories."""
+    found = []
+    rng = random.Random(f"C10-search-{ctx.seed}")
+    M.run_multi_consumer_family([M.random_multi_variant(rng) for _ in range(60)],
+                                lambda sig, name, detail, wit: found.append((sig, name, detail, wit)))
+    seen = set()
+    for sig, name, detail, wit in found:
+        if sig not in seen:
+            seen.add(sig)
+            ctx.add_failure("oracle", name, sig, detail, witness=wit)
+    if found:
+        return
     ctx._c10_hist = None
     old = ctx.tier
     ctx.tier = "thorough"
